@@ -145,6 +145,12 @@ def run(chk):
             g = oqupy.GibbsTempo(oqupy.System(H), bath, oqupy.GibbsParameters(n_steps=nst, epsrel=1e-10))
             quiet(g.compute, progress_type="silent")
             s1 = g.get_state()
+            if it % 3 == 0:
+                # the one-call wrapper returns the dynamics of the same computation
+                dw_ = quiet(oqupy.gibbs_tempo_compute, oqupy.System(H), bath, oqupy.GibbsParameters(n_steps=nst, epsrel=1e-10), progress_type="silent")
+                sw_ = np.array(dw_.states[-1]) if hasattr(dw_, "states") else np.array(dw_)      # the wrapper returns the state
+                if not np.allclose(sw_ / np.trace(sw_), s1, rtol=0, atol=1e-12):
+                    chk.fail("gibbs-wrapper-differs", "gibbs_tempo_compute differs from GibbsTempo(...).compute()", info)
             slices = [(float(t_), np.array(x_)) for t_, x_ in zip(g.get_dynamics().times, g.get_dynamics().states)]
             quiet(g.compute, progress_type="silent")
             s2 = g.get_state()
